@@ -66,6 +66,13 @@ pub fn base_history(r: &mut Sm, idx: usize) -> History {
     if planner != PKind::Prm {
         params.goal_bias = *r.pick(&[0.05, 0.2, 0.5]);
     }
+    // another query towards the same goal: the second problem shares the first one's goal
+    // (the history runner then hands over the very same goal and space objects)
+    if r.bool(0.25) {
+        p2.goal = p1.goal.clone();
+        p2.infeasible = None;
+        p2.tags.push("shares-the-goal-object-of-problem-0".into());
+    }
     History { problems: vec![p1, p2], params, prm_samples: 5 + r.below(60) as u64, ops: vec![], uniform_fail_at: None, starts_override: None, script: None, prm_build_override: None }
 }
 
@@ -255,6 +262,30 @@ pub fn run(tier: Tier, seed: u64) -> i32 {
                 } else {
                     vec![Op::Setup(0), Op::Solve(n), Op::SetupMixed(0, 1), Op::Solve(n), Op::Setup(0), Op::Solve(n)]
                 };
+            }
+            if h.params.kind == PKind::Prm && i % 5 == 3 {
+                // a second query towards the same goal (shared goal / space objects) from a start
+                // state the installed checker rejects, after a first query has been answered;
+                // then back to the first problem
+                let mut p2 = h.problems[0].clone();
+                p2.extra_starts.clear();
+                p2.tags.push("shares-the-goal-object-of-problem-0".into());
+                with_kit!(h.problems[0].spec, K, kit => {
+                    if let Ok(ev) = WorldEval::<K>::new(&kit, &h.problems[0].world) {
+                        for _ in 0..40 {
+                            let cand = crate::world::rand_state(&mut r, &h.problems[0].spec);
+                            if !ev.valid(&kit.unflat(&cand), &cand) {
+                                p2.start = cand;
+                                break;
+                            }
+                        }
+                    }
+                });
+                if p2.start != h.problems[0].start {
+                    h.problems[1] = p2;
+                    h.ops = vec![Op::Setup(0), Op::Construct, Op::Solve(10), Op::SetPd(1), Op::Solve(10), Op::SetPd(0), Op::Solve(10)];
+                    b.count("prm_second_query_sharing_the_goal_object", 1);
+                }
             }
             with_kit!(h.problems[0].spec, K, kit => run_one::<K>(&ctx, &mut b, &kit, &h, Trigger::None));
             i += shards;
